@@ -22,9 +22,9 @@ def codec_impls(F):
     for f in F.fns.values():
         tr = f.j.get("trait")
         if tr == ENC_TRAIT and f.j.get("method") == "encode":
-            out.setdefault(f.j["self_ty"], {})["enc"] = f
+            out.setdefault(f.j["self_ty"], {})["enc"] = F.inlined(f, light=False)
         if tr == DEC_TRAIT and f.j.get("method") == "decode":
-            out.setdefault(f.j["self_ty"], {})["dec"] = f
+            out.setdefault(f.j["self_ty"], {})["dec"] = F.inlined(f, light=False)
     return out
 
 
